@@ -11,7 +11,7 @@ from .._backends.base import SOCKET_OPTION, NetworkBackend, NetworkStream
 from .._exceptions import ConnectError, ConnectTimeout
 from .._models import Origin, Request, Response
 from .._ssl import default_ssl_context
-from .._synchronization import Lock
+from .._synchronization import Lock, ShieldCancellation
 from .._trace import Trace
 from .http11 import HTTP11Connection
 from .interfaces import ConnectionInterface
@@ -111,6 +111,7 @@ class HTTPConnection(ConnectionInterface):
         delays = exponential_backoff(factor=RETRIES_BACKOFF_FACTOR)
 
         while True:
+            stream: NetworkStream | None = None
             try:
                 if self._uds is None:
                     kwargs = {
@@ -163,6 +164,11 @@ class HTTPConnection(ConnectionInterface):
                 delay = next(delays)
                 with Trace("retry", logger, request, kwargs) as trace:
                     self._network_backend.sleep(delay)
+            except BaseException:
+                if stream is not None:
+                    with ShieldCancellation():
+                        stream.close()
+                raise
 
     def can_handle_request(self, origin: Origin) -> bool:
         return origin == self._origin
